@@ -8,15 +8,39 @@ package agent
 //@ model pos Int
 //@ model snap SeqU
 
-//@ assume func Iterator
+//@ global collatorClass guarded_by collatorMutex
+//@ func Collator
+//@   props C19
+//@   syncwrites
 //@   nopanic
+//@   assumes !held(addrof(collatorMutex))
+//@   modifies held(addrof(collatorMutex)), mapof(global(collatorClass))
 //@   ensures result != nil
-//@ assume func Collator
+//@   checks[C19] !held(addrof(collatorMutex))
+//@   checks[C19] get(global(collatorClass), local(name)) == result && (result == old(get(global(collatorClass), local(name))) || fresh(result))
+//@ global sorterClass guarded_by sorterMutex
+//@ func Sorter
+//@   props C19
+//@   syncwrites
 //@   nopanic
+//@   assumes !held(addrof(sorterMutex))
+//@   modifies held(addrof(sorterMutex)), mapof(global(sorterClass))
 //@   ensures result != nil
-//@ assume func Sorter
+//@   checks[C19] !held(addrof(sorterMutex))
+//@   checks[C19] get(global(sorterClass), local(name)) == result && (result == old(get(global(sorterClass), local(name))) || fresh(result))
+// class registries (C19): a package-level map from the bound type's name to its class, guarded by a mutex;
+// an accessor may be called from any goroutine, returns the registered class, and registers a new one only
+// when the name has no entry of the right type. `assumes`: the calling thread does not hold the (non-reentrant) mutex.
+//@ global iteratorClass guarded_by iteratorMutex
+//@ func Iterator
+//@   props C19
+//@   syncwrites
 //@   nopanic
+//@   assumes !held(addrof(iteratorMutex))
+//@   modifies held(addrof(iteratorMutex)), mapof(global(iteratorClass))
 //@   ensures result != nil
+//@   checks[C19] !held(addrof(iteratorMutex))
+//@   checks[C19] get(global(iteratorClass), local(name)) == result && (result == old(get(global(iteratorClass), local(name))) || fresh(result))
 //@ assume func Inspector
 //@   nopanic
 //@   ensures result != nil
